@@ -11,7 +11,11 @@ CORR_HEADER = ("From Coq Require Import ZArith QArith List String.\n"
                "Open Scope string_scope.\nOpen Scope Q_scope.\n")
 CHECK_FN = "check_c13"
 RULE = ("EVSE class x parameters x pilot placed at every decision boundary +- {0,1e-6,5e-4,0.999e-3,1.001e-3,2e-3} "
-        "or random, with/without a connected EV; non-trivial = distinct (class, params, pilot, has_ev); "
+        "or random, with/without a connected EV; the station lives in a real ChargingNetwork + Simulator + Interface "
+        "(20% of cases: the id was first registered with another EVSE; 30%: a look-alike sibling station of the same class "
+        "with the same min/max is registered first; finite-rate EVSEs are built from a list object that the caller mutates "
+        "afterwards); a newcomer is plugged in through the network around the occupant's nominal departure; "
+        "non-trivial = distinct (class, params, pilot, has_ev); "
         "cases whose pilot is within 1e-9 of a decision threshold are skipped as float-ambiguous")
 ASSUMPTIONS = ["theorems are over R (exact arithmetic); implementation computes pilot+-atol in doubles",
                "EVSE max_rate=inf (the constructor default) is represented by a large finite rate in the model runs"]
